@@ -216,13 +216,32 @@ _ADD_LEVEL5 = {
 }
 for _k, _v in _ADD_LEVEL5.items():
     LEVEL[_k] = LEVEL[_k] + _v
+# ---- after the sixth seeding round (DESIGN.md C14) ----
+_ADD_LEVEL6 = {
+    "C02": " Added: the segment-id alphabet lies inside the id class of the clean-up pattern.",
+    "C03": " Added: no finalizer on reader classes.",
+    "C04": " Added: the in-memory write lock is not re-entrant.",
+    "C06": " Added: the term merge's single-iterator shortcut yields the head it already pulled.",
+    "C07": " Added: a writer opens a fresh reader per lookup; matchers that count document numbers themselves are given the reader's "
+           "deletion predicate.",
+    "C09": " Added: the field boost reaches every posting (dominator rule); averages and idf are normalised by one population.",
+    "C12": " Added: skip_to_quality returns a count on every path.",
+    "C14": " Added: per-search counters accumulate across segments; at most one layer of a collector chain drives the documents itself "
+           "(known finding: filter/mask bypasses collapse).",
+    "C16": " Added: every plugin filter descends into nested groups; user patterns are compiled under a QueryError handler; text-to-date "
+           "conversions are fenced by a catch-all; a field prefix reaches every node of its group.",
+    "C17": " Added: an escaping formatter escapes the matched words too.",
+}
+for _k, _v in _ADD_LEVEL6.items():
+    LEVEL[_k] = LEVEL[_k] + _v
 for _k in list(LEVEL):
     LEVEL[_k] = LEVEL[_k] + (" Generic families over the property's anchor files: G1 no argument bound to the slot of another, same-named "
                              "parameter of the resolved callee; G2 no parameter dropped on the way to the callee that takes it; G3 no attribute "
-                             "name read that nothing in the package or the standard library defines.")
+                             "name read that nothing in the package or the standard library defines; G4 no constructor parameter replaced by a "
+                             "constant under its own name; G5 every attribute a concrete class reads through self is bound in its hierarchy.")
 for _k in list(NOTE):
     NOTE[_k] = NOTE[_k] + (" All rules are invariant under the behaviour-preserving whole-tree transformations of tools/robust.py "
-                           "and silent on the 258 confirmed refactorings under benign/ (thorough tier). Independent seeding rounds: an unseen "
-                           "regression was caught in 19/40, 20/60, 23/60, 25/60 and 21/60 cases before the rules were strengthened; an unseen refactoring "
-                           "raised a false alarm in 27/80, 27/57, 15/60 and 15/60 cases before the machinery was corrected (DESIGN.md C2, C8, C12, C13). "
-                           "The transformations are now 22.")
+                           "and silent on the 318 confirmed refactorings under benign/ (thorough tier). Independent seeding rounds: an unseen "
+                           "regression was caught in 19/40, 20/60, 23/60, 25/60, 21/60 and 21/60 cases before the rules were strengthened; an unseen refactoring "
+                           "raised a false alarm in 27/80, 27/57, 15/60, 15/60 and 16/60 cases before the machinery was corrected (DESIGN.md C2, C8, C12, C13, C14). "
+                           "The transformations are now 24.")
